@@ -99,15 +99,24 @@ def _count_nonzero(a, axis=None, **k):
     if active() and has_sym(a):
         _hit("count_nonzero")
         arr = np.asarray(a, dtype=object)
-        if axis is not None:
-            raise Inconclusive("count_nonzero(axis) on a symbolic array")
-        tot = 0
-        for x in arr.flat:
-            if isinstance(x, SymReal):
-                tot = tot + SymReal(z3.If(x.e != 0, z3.RealVal(1), z3.RealVal(0)))
-            else:
-                tot = tot + (1 if x != 0 else 0)
-        return tot
+
+        def count(items):
+            tot = 0
+            for x in items:
+                if isinstance(x, SymReal):
+                    tot = tot + SymReal(z3.If(x.e != 0, z3.RealVal(1), z3.RealVal(0)))
+                else:
+                    tot = tot + (1 if x != 0 else 0)
+            return tot
+        if axis is None:
+            return count(arr.flat)
+        if arr.ndim != 2 or axis not in (0, 1):
+            raise Inconclusive("count_nonzero(axis) on a symbolic array of this shape")
+        lines = arr.T if axis == 0 else arr
+        out = np.empty(len(lines), dtype=object)
+        for i, ln in enumerate(lines):
+            out[i] = count(ln)
+        return out.view(SymArray)
     return np.count_nonzero(np.asarray(a, dtype=float) if isinstance(a, SymArray) else a, axis=axis, **k)
 
 
